@@ -9,9 +9,10 @@ Open Scope Z_scope.
 Lemma sum_no_one (c : col) :
   forallb (fun v => (v =? 0) || (v =? 1)) c = true -> existsb (Z.eqb 1) c = false -> col_sum c = 0.
 Proof.
-  induction c as [|v c IH]; cbn; intros H E; [reflexivity|].
+  induction c as [|v c IH]; intros H E; [reflexivity|].
+  cbn [forallb existsb] in H, E.
   apply andb_true_iff in H as [Hv H]. apply orb_false_iff in E as [Ev E].
-  rewrite (IH H E). lia.
+  change (col_sum (v :: c)) with (v + col_sum c). rewrite (IH H E). lia.
 Qed.
 
 Lemma sum_no_zero (c : col) :
@@ -44,7 +45,8 @@ Proof.
   apply Nat.eqb_eq in Hl. apply Z.eqb_eq in Hs. subst A.
   destruct c as [|a [|b c]]; cbn [length]; try lia.
   - discriminate.
-  - cbn in E, Hs. lia.
+  - cbn [existsb] in E. apply orb_true_iff in E as [E|E]; [|discriminate].
+    apply Z.eqb_eq in E. subst a. discriminate Hs.
 Qed.
 
 Lemma has_of_nth v (Y : batch) i q : (i < length Y)%nat -> (q < length (nth i Y []))%nat ->
@@ -186,7 +188,8 @@ Proof.
     destruct sp as [|? ?]; [|cbn in Hsp; lia].
     cbn [multi_loop positions spans_in combine forallb fst snd tl hd].
     destruct (span_in L p (tL m)); cbn [andb]; [|exact Hstep].
-    destruct Hstep as (Y & E & HY & Hl & Hp). exists Y. repeat split; auto.
+    destruct Hstep as (Y & E & HY & Hl & Hp). exists Y.
+    split; [exact E|]. split; [exact HY|]. split; [exact Hl|].
     intros i q Hi Hq. rewrite (Hp i q Hi Hq). unfold multi_col.
     cbn [combine fold_left fst snd tX]. reflexivity.
   - destruct sp as [|s sp]; [cbn in Hsp; lia|].
@@ -219,8 +222,8 @@ Lemma multi_spec X ms sp start :
 Proof.
   destruct X as [A L X]. cbn [spec_ok model tA tL tX].
   match goal with |- (if ?c then _ else _) = true => destruct c eqn:Hin end; [|reflexivity].
-  repeat (apply andb_true_iff in Hin as [Hin ?]).
-  rename H into Hspc, H0 into Hsp, H1 into Hn, H2 into HMs, Hin into HX.
+  apply andb_true_iff in Hin as [Hin Hspc]. apply andb_true_iff in Hin as [Hin Hsp].
+  apply andb_true_iff in Hin as [Hin Hn]. apply andb_true_iff in Hin as [HX HMs].
   apply Nat.ltb_lt in Hn. apply Nat.eqb_eq in Hsp.
   unfold multisubstitute. cbn [tA tL tX].
   assert (E1 : (Z.of_nat (length sp) =? Z.of_nat (length ms) - 1) = true) by (apply Z.eqb_eq; lia).
